@@ -31,7 +31,9 @@ def variants(rnd, members, tier):
             ms = members[:i] + [y] + members[i + 1:]
             yield 'recorded-length=%s' % ('n+1' if newlen == n + 1 else 'n-1' if newlen == n - 1 else newlen), arc.archive(ms), i
         crcs = [x.m['crc'] ^ (1 << b) for b in range(16)] + [rnd.randrange(65536)]
-        for c in (crcs if tier == 'thorough' or i == 0 else crcs[::5]):
+        # values a program might treat as 'no CRC recorded'
+        special = [0x0000, 0xffff]
+        for c in special + (crcs if tier == 'thorough' or i == 0 else crcs[::5]):
             if c == x.m['crc']:
                 continue
             y = arc.Member(dict(x.m, crc=c), x.packed, x.plain)
@@ -58,6 +60,19 @@ def gen_bases(rnd, tier):
         for size in ([0, 1, 40] if tier == 'quick' else [0, 1, 7, 40, 300, 3000]):
             x = arc.file_member(rnd, m, b'f%d.bin' % size, size=size, level=(mi + size) % 4)
             out.append([x])
+    # members whose true CRC-16 is 0000 (any message followed by its own CRC, low byte first, has CRC 0) and FFFF: every
+    # corruption of them leaves a recorded CRC that looks like 'nothing recorded'
+    for lvl in (0, 1, 2, 3):
+        body = bytes(rnd.randrange(256) for _ in range(20))
+        c = crc16(body)
+        zero = body + bytes([c & 0xff, c >> 8])
+        assert crc16(zero) == 0
+        out.append([arc.Member(H.simple_member(b'crc0.bin', zero, level=lvl), zero, zero)])
+        for _ in range(70000):
+            cand = body + bytes([rnd.randrange(256), rnd.randrange(256), rnd.randrange(256)])
+            if crc16(cand) == 0xffff:
+                out.append([arc.Member(H.simple_member(b'crcf.bin', cand, level=lvl), cand, cand)])
+                break
     for k in range(24 if tier == 'quick' else 300):
         ms = []
         n = rnd.randrange(2, 5)
@@ -444,13 +459,23 @@ def cannot_create_part(ctx, rnd):
 
 def burst_part(ctx, exe_enum):
     """Exhaustive (thorough) / sampled (quick) bursts of 1..16 bits on a 6-byte stored member, in-process."""
-    x = arc.Member(H.simple_member(b'burst.bin', b'\x13\x37\xc0\xde\x00\xff', level=2), b'\x13\x37\xc0\xde\x00\xff', b'\x13\x37\xc0\xde\x00\xff')
-    hdr = H.build_header(x.m)[0]
-    a = arc.archive([x])
-    p = os.path.join(build.scratch_root(), 'burst.bin')
-    open(p, 'wb').write(struct.pack('<II', len(hdr), len(a)) + a)
-    offs = list(range(48)) if ctx.tier == 'thorough' else [0, 1, 7, 8, 15, 23, 31, 32]
-    def one(o):
+    # two targets: ordinary data in a level-2 header, and data whose true CRC is 0000 in a level-0 header (a recorded CRC that
+    # looks like 'none recorded')
+    d0 = b'\x13\x37\xc0\xde'
+    z = d0 + bytes([crc16(d0) & 0xff, crc16(d0) >> 8])
+    targets = [(b'\x13\x37\xc0\xde\x00\xff', 2), (z, 0)]
+    jobs = []
+    for ti, (data, lvl) in enumerate(targets):
+        x = arc.Member(H.simple_member(b'burst.bin', data, level=lvl), data, data)
+        hdr = H.build_header(x.m)[0]
+        a = arc.archive([x])
+        p = os.path.join(build.scratch_root(), 'burst%d.bin' % ti)
+        open(p, 'wb').write(struct.pack('<II', len(hdr), len(a)) + a)
+        offs = list(range(48)) if ctx.tier == 'thorough' else ([0, 1, 7, 8, 15, 23, 31, 32] if ti == 0 else [0, 9, 33])
+        jobs += [(p, o) for o in offs]
+    offs = jobs
+    def one(po):
+        p, o = po
         return subprocess.run([exe_enum, 'c07burst', p, str(o), str(o + 1)], capture_output=True, text=True, env=build.san_env())
     tot = 0
     with ThreadPoolExecutor(max_workers=16) as ex:
